@@ -4,6 +4,7 @@ import SkgVerif.Model.Estimators
 import SkgVerif.Model.Binning
 import SkgVerif.Model.SumModels
 import SkgVerif.Model.Kriging
+import SkgVerif.Model.CrossVal
 import SkgVerif.Gen.ModelsExec
 import SkgVerif.Gen.STModelsExec
 /-!
@@ -180,6 +181,17 @@ def handleC07 : List String → Option String
       let os ← buildOutcomes (tokens kinds) zs gs
       let st := transformLoop os
       some s!"ok|{fmtList fmtOptRat st.z}|{fmtList fmtOptRat st.sigma}|{st.noPoints}|{st.singular}|{st.cursor}"
+  | _ => none
+
+
+def handleC17 : List String → Option String
+  | ["score", devs] => do
+      let d ← parseOptRats devs
+      some s!"ok|{fmtOptRat (mseScore d)}|{fmtOptRat (maeScore d)}|{fmtOptRat (maeScoreDefect d)}"
+  | ["delete", i, xs] => do
+      let i ← i.trimAscii.toString.toNat?
+      let xs ← parseRats xs
+      some s!"ok|{fmtList fmtRat (deleteAt xs i)}"
   | _ => none
 
 end Skg
